@@ -133,6 +133,33 @@ fn first_must_refuse(tags: &[(String, bool)]) -> Option<usize> {
     None
 }
 
+/// Removes the start/end tag tokens of `<annotation-xml data-w>` wrappers (as-implemented
+/// reference documents only).
+fn strip_marker_wrappers(w: Vec<Tok>) -> Vec<Tok> {
+    let mut stack: Vec<bool> = vec![];
+    let mut out = vec![];
+    for t in w {
+        match &t {
+            Tok::Start { name, attrs, sc } if name == "annotation-xml" => {
+                let marker = attrs.iter().any(|(n, _)| n == "data-w");
+                if !*sc {
+                    stack.push(marker);
+                }
+                if !marker {
+                    out.push(t);
+                }
+            }
+            Tok::End { name } if name == "annotation-xml" => {
+                if stack.pop() != Some(true) {
+                    out.push(t);
+                }
+            }
+            _ => out.push(t),
+        }
+    }
+    out
+}
+
 fn tag_seq(toks: &[Tok]) -> Vec<(String, bool)> {
     toks.iter()
         .filter_map(|t| match t {
@@ -165,7 +192,10 @@ pub fn check_input(input: &[u8], depth: Depth, stats: Option<&Ctx>) -> Option<St
 /// used only to classify the listed known finding (as-implemented reading of the input).
 pub fn check_input_ref(input: &[u8], reference_doc: Option<&str>, depth: Depth, stats: Option<&Ctx>) -> Option<String> {
     let Ok(s) = std::str::from_utf8(input) else { return None };
-    let w = whatwg_tokens(reference_doc.unwrap_or(s));
+    let mut w = whatwg_tokens(reference_doc.unwrap_or(s));
+    if reference_doc.is_some_and(|r| r.contains(WRAP_OPEN)) {
+        w = strip_marker_wrappers(w);
+    }
     if let Some(c) = stats {
         c.validated(1);
         if w.len() >= 2 {
@@ -338,6 +368,10 @@ enum NT {
     MathC,
     /// content of a MathML annotation-xml without an HTML encoding: text and svg islands
     AnnSvg,
+    /// content of an `<svg>` whose parent is a MathML element other than annotation-xml (a MathML
+    /// element for WHATWG, an SVG island for the implementation): a reduced menu, so that the
+    /// listed finding's as-implemented reading stays a simple rewrite
+    FakeSvgC,
 }
 
 const CDATA: &str = "<![CDATA[<b>]x]]>";
@@ -346,7 +380,18 @@ const CDATA_IP: &str = "<![CDATA[<b>]y]]>";
 /// What the implementation makes of CDATA_IP: a bogus comment up to the first '>' and text.
 const CDATA_IP_AS_IMPLEMENTED: &str = "<!--[CDATA[<b-->]y]]>";
 
-type Doc = (String, bool);
+/// (document, flags): bit 0 = CDATA directly inside an integration point, bit 1 = an `<svg>` whose
+/// parent is a MathML element other than annotation-xml (both are listed findings).
+type Doc = (String, u8);
+const F_IP_CDATA: u8 = 1;
+const F_SVG_IN_MATH: u8 = 2;
+/// The offending svg of F_SVG_IN_MATH is written with these spellings so that it can be located.
+const SVG_IN_MATH_OPEN: &str = "<svg data-m>";
+const SVG_IN_MATH_CLOSE: &str = "</svg\n>";
+/// As-implemented reading: a real SVG island, which is what WHATWG makes of an svg child of
+/// annotation-xml; the wrapper's own tokens are removed from the reference token list.
+const WRAP_OPEN: &str = "<annotation-xml data-w><svg data-m>";
+const WRAP_CLOSE: &str = "</svg\n></annotation-xml>";
 
 struct Gen {
     trees: HashMap<(NT, usize), std::rc::Rc<Vec<Doc>>>,
@@ -355,11 +400,15 @@ struct Gen {
 
 impl Gen {
     fn wrap(&mut self, open: &str, close: &str, nt: NT, size: usize, out: &mut Vec<Doc>) {
+        self.wrap_flag(open, close, nt, size, out, 0)
+    }
+
+    fn wrap_flag(&mut self, open: &str, close: &str, nt: NT, size: usize, out: &mut Vec<Doc>, flag: u8) {
         if size == 0 {
             return;
         }
         for (inner, f) in self.forest(nt, size - 1).iter() {
-            out.push((format!("{open}{inner}{close}"), *f));
+            out.push((format!("{open}{inner}{close}"), *f | flag));
         }
     }
 
@@ -371,9 +420,9 @@ impl Gen {
         match nt {
             NT::Html | NT::HtmlIP => {
                 if size == 1 {
-                    out.push(("t".into(), false));
+                    out.push(("t".into(), 0));
                     if nt == NT::HtmlIP {
-                        out.push((CDATA_IP.into(), true));
+                        out.push((CDATA_IP.into(), F_IP_CDATA));
                     }
                 }
                 self.wrap("<div>", "</div>", NT::Html, size, &mut out);
@@ -382,29 +431,45 @@ impl Gen {
             }
             NT::SvgC => {
                 if size == 1 {
-                    out.push(("t".into(), false));
-                    out.push(("<path/>".into(), false));
-                    out.push((CDATA.into(), false));
+                    out.push(("t".into(), 0));
+                    out.push(("<path/>".into(), 0));
+                    out.push((CDATA.into(), 0));
                 }
                 self.wrap("<g>", "</g>", NT::SvgC, size, &mut out);
                 self.wrap("<foreignObject>", "</foreignObject>", NT::HtmlIP, size, &mut out);
                 self.wrap("<title>", "</title>", NT::HtmlIP, size, &mut out);
                 self.wrap("<desc>", "</desc>", NT::HtmlIP, size, &mut out);
+                // in SVG content `<math>` is just an SVG element with that name
+                self.wrap("<math>", "</math>", NT::SvgC, size, &mut out);
             }
             NT::MathC => {
                 if size == 1 {
-                    out.push(("<mi>t</mi>".into(), false));
-                    out.push((format!("<mi>{CDATA_IP}</mi>"), true));
-                    out.push((CDATA.into(), false));
+                    out.push(("<mi>t</mi>".into(), 0));
+                    out.push((format!("<mi>{CDATA_IP}</mi>"), F_IP_CDATA));
+                    out.push((CDATA.into(), 0));
                 }
                 self.wrap("<mrow>", "</mrow>", NT::MathC, size, &mut out);
+                // in MathML content (outside annotation-xml) `<svg>` is just a MathML element with
+                // that name; the implementation enters an SVG island (listed finding)
+                self.wrap_flag(SVG_IN_MATH_OPEN, SVG_IN_MATH_CLOSE, NT::FakeSvgC, size, &mut out, F_SVG_IN_MATH);
                 self.wrap("<annotation-xml encoding=\"text/html\">", "</annotation-xml>", NT::HtmlIP, size, &mut out);
                 // an svg element that is a child of annotation-xml starts a real SVG island
                 self.wrap("<annotation-xml encoding=\"image/svg+xml\">", "</annotation-xml>", NT::AnnSvg, size, &mut out);
             }
+            NT::FakeSvgC => {
+                if size == 1 {
+                    out.push(("t".into(), 0));
+                    out.push(("<mi>t</mi>".into(), 0));
+                    out.push(("<path/>".into(), 0));
+                    out.push((CDATA.into(), 0));
+                }
+                self.wrap("<g>", "</g>", NT::FakeSvgC, size, &mut out);
+                self.wrap("<title>", "</title>", NT::Html, size, &mut out);
+                self.wrap("<mtext>", "</mtext>", NT::Html, size, &mut out);
+            }
             NT::AnnSvg => {
                 if size == 1 {
-                    out.push(("t".into(), false));
+                    out.push(("t".into(), 0));
                 }
                 self.wrap("<svg>", "</svg>", NT::SvgC, size, &mut out);
             }
@@ -422,7 +487,7 @@ impl Gen {
         }
         let mut out: Vec<Doc> = vec![];
         if size == 0 {
-            out.push((String::new(), false));
+            out.push((String::new(), 0));
         } else {
             for first in 1..=size {
                 let heads = self.tree(nt, first);
@@ -434,7 +499,7 @@ impl Gen {
                         if h == "t" && t.starts_with('t') {
                             continue;
                         }
-                        out.push((format!("{h}{t}"), *hf || *tf));
+                        out.push((format!("{h}{t}"), *hf | *tf));
                     }
                 }
             }
@@ -589,17 +654,50 @@ fn g_sweep(ctx: &Ctx, name: &str, max_nodes: usize, depth: Depth) {
         if ctx.over_time() {
             return;
         }
-        let (d, ip_cdata) = &docs[i];
+        let (d, flags) = &docs[i];
         if let Some(msg) = check_input(d.as_bytes(), depth, Some(ctx)) {
             let msg = check_input(d.as_bytes(), Depth::L1, None).unwrap_or(msg);
-            // signature of the listed finding: the document has CDATA directly inside an
-            // integration point, and reading exactly those sections the way the implementation
-            // does (bogus comment up to the first '>' + text) removes every difference.
-            let sig = *ip_cdata && {
-                let as_impl = d.replace(CDATA_IP, CDATA_IP_AS_IMPLEMENTED);
-                check_input_ref(d.as_bytes(), Some(&as_impl), Depth::L1, None).is_none()
+            // signatures of the listed findings: the document has the construct, and reading
+            // exactly those constructs the way the implementation does removes every difference
+            // (CDATA directly inside an integration point: bogus comment up to the first '>' + text;
+            // svg inside MathML outside annotation-xml: a real SVG island)
+            let as_cdata = |x: &str| x.replace(CDATA_IP, CDATA_IP_AS_IMPLEMENTED);
+            let as_island = |x: &str| x.replace(SVG_IN_MATH_OPEN, WRAP_OPEN).replace(SVG_IN_MATH_CLOSE, WRAP_CLOSE);
+            // inside the (wrongly entered) svg island `<mi>` is no integration point for the
+            // implementation: only the CDATA sections outside of it are read as bogus comments
+            let as_cdata_outside = |x: &str| {
+                let mut out = String::new();
+                let mut rest = x;
+                let mut depth = 0usize;
+                while !rest.is_empty() {
+                    if let Some(r) = rest.strip_prefix(SVG_IN_MATH_OPEN) {
+                        depth += 1;
+                        out.push_str(SVG_IN_MATH_OPEN);
+                        rest = r;
+                    } else if let Some(r) = rest.strip_prefix(SVG_IN_MATH_CLOSE) {
+                        depth = depth.saturating_sub(1);
+                        out.push_str(SVG_IN_MATH_CLOSE);
+                        rest = r;
+                    } else if let (0, Some(r)) = (depth, rest.strip_prefix(CDATA_IP)) {
+                        out.push_str(CDATA_IP_AS_IMPLEMENTED);
+                        rest = r;
+                    } else {
+                        let c = rest.chars().next().unwrap();
+                        out.push(c);
+                        rest = &rest[c.len_utf8()..];
+                    }
+                }
+                out
             };
-            report(ctx, d.as_bytes(), msg, if sig { Some("cdata-in-integration-point") } else { None });
+            let agrees = |r: String| check_input_ref(d.as_bytes(), Some(&r), Depth::L1, None).is_none();
+            let sig = if flags & F_IP_CDATA != 0 && agrees(as_cdata(d)) {
+                Some("cdata-in-integration-point")
+            } else if flags & F_SVG_IN_MATH != 0 && (agrees(as_island(d)) || (flags & F_IP_CDATA != 0 && (agrees(as_island(&as_cdata(d))) || agrees(as_island(&as_cdata_outside(d)))))) {
+                Some("svg-in-mathml-outside-annotation-xml")
+            } else {
+                None
+            };
+            report(ctx, d.as_bytes(), msg, sig);
         }
         ctx.states.insert(digest(d));
         if i % 20_011 == 3 {
